@@ -668,6 +668,10 @@ def check_C04(tier, nproc=None):
         S7 += [[N19, (24, D), b'e-30'], [b'-', N19, b'.', (22, D), b'e-310'], [N19, (19, D), b'e289'], [b'2.22507385850720', (5, D), b'e-308'], [b'4.9', (4, D), b'e-324'],
                [b'1.797693134862315', (5, D), b'e308'], [N19, (15, D), b'.', (8, D)], [b'8.98846567431158', (4, D), b'e307'], [N19, b'e-', b'300'], [N19, (9, D), b'E+', b'150'],
                [b'0.', b'0' * 30, N19, (12, D)], [N19, (30, D)]]
+    # ... and a 19-digit mantissa d.dddddddddddddddddd at decimal exponents across the whole range (thorough: every one)
+    exps = list(range(-345, 311, 41)) + [-330, -326, -325, -324, -323, -309, -308, -307, -1, 0, 1, 15, 16, 22, 23, 307, 308, 309] if tier == 'quick' else list(range(-345, 312))
+    for e10 in sorted(set(exps)):
+        S7.append(([b'-'] if e10 % 7 == 0 else []) + [N19, b'.', (18, D), b'e' + str(e10).encode()])
     for t in S7:
         c.add(Job('vH_FP_absbits', [('tmpl', 'd', t)], pkg=FP, weight=2500, opts={'absdec': True, 'nsamples': 2}))
     # tier 5d: RoundedInteger / shouldRoundUp: nearest integer, ties to even, truncated decimals round up at a tie
